@@ -406,22 +406,27 @@ inductive WalkRes where
   | addr (a : Option Bytes)        -- most recent usable identifier (`ofor`), if any
 deriving Repr, DecidableEq
 
+/-- the node identifier one proxy reports: its last for= param, cleaned up
+    (`none` = the proxy's params have no for=) -/
+def groupVal (s : Bytes) (g : List Item) : Option ForVal :=
+  match g.reverse.find? (isFor s) with
+  | some (.kv _ _ v vlen) => some (forValue s v vlen)
+  | _ => none
+
 /-- walk over the proxies from the right: remember the last usable identifier, stop at the
     first identifier that is not a trusted proxy -/
 def fwdWalkGroups (f : Forwarder) (s : Bytes) : List (List Item) → Option Bytes → WalkRes
   | [], ofor => .addr ofor
   | g :: gs, ofor =>
-    match g.reverse.find? (isFor s) with
-    | some (.kv _ _ v vlen) =>
-      match forValue s v vlen with
-      | .bad => .bad
-      | .junk => .junk
-      | .val x =>
-        if x.isEmpty then fwdWalkGroups f s gs ofor
-        else
-          let ofor := if usable x then some x else ofor
-          if isProxyTrusted f x then fwdWalkGroups f s gs ofor else .addr ofor
-    | _ => fwdWalkGroups f s gs ofor
+    match groupVal s g with
+    | none => fwdWalkGroups f s gs ofor
+    | some .bad => .bad
+    | some .junk => .junk
+    | some (.val x) =>
+      if x.isEmpty then fwdWalkGroups f s gs ofor
+      else
+        let ofor := if usable x then some x else ofor
+        if isProxyTrusted f x then fwdWalkGroups f s gs ofor else .addr ofor
 
 /-- the walk of mod_extforward_Forwarded() over all params (`while (j >= 3)`) -/
 def fwdWalk (f : Forwarder) (s : Bytes) (items : List Item) : WalkRes :=
